@@ -4012,6 +4012,25 @@ func (e *c09env) ruleEFG() {
 		}
 		rtSeqs(fmt.Sprintf("key U+%04X %q", r, r), seqs, "chords match their own String()")
 	}
+	// chords reported while Caps Lock / Num Lock are engaged (the lock bits are removed before matching, so the
+	// description String() writes has to match without them): with and without the associated text, Shift
+	// inverting the case under Caps Lock as X11/Wayland report it
+	{
+		caps, num := 64, 128
+		var seqs []c09Seq
+		for _, lock := range []int{caps, num, caps | num} {
+			seqs = append(seqs,
+				csi('u', []int{97}, []int{lock + 1}),                         // a, no text
+				csi('u', []int{97}, []int{lock + 1}, []int{65}),              // a, text "A"
+				csi('u', []int{97, 65}, []int{lock + 2 + 0}, []int{97}),      // Shift+a, text "a"
+				csi('u', []int{97, 65}, []int{lock + 2}),                     // Shift+a, no text
+				csi('u', []int{97}, []int{lock + 4 + 1}),                     // Ctrl+a
+				csi('u', []int{49, 33}, []int{lock + 2}, []int{33}),          // Shift+1 = '!'
+				csi('u', []int{13}, []int{lock + 1}),                         // Enter
+			)
+		}
+		rtSeqs("chords under Caps Lock / Num Lock", seqs, "a chord reported with lock bits matches its own String()")
+	}
 	// special keys: every value of the decode table and every named key
 	specials := map[int64]bool{}
 	for _, v := range e.table {
